@@ -20,7 +20,8 @@ import TfelVerif.C23.GenStress
 namespace TfelVerif.C23.PropsStress
 open TfelVerif TfelVerif.Mandel TfelVerif.C23
 set_option linter.unusedVariables false
-set_option linter.style.nameCheck false
+set_option linter.all false
+set_option maxRecDepth 100000
 set_option maxHeartbeats 4000000
 variable {K : Type} [Field K] (c c3 : K) (fn : Fns K)
 
@@ -109,6 +110,66 @@ theorem N3_pk2_to_cauchy (hc : c * c = 2) (h2 : (2:K) ≠ 0) (hJ : F.det ≠ 0) 
     rw [this]; exact hJ
   obtain ⟨f00,f01,f02,f10,f11,f12,f20,f21,f22⟩ := F
   c23_rat hc with hd
+/-! ### corotational Cauchy stress `σ̃ = Rᵀ σ R` and right stretch `U` (stored `u`): `U S U = det U · σ̃` -/
+theorem N3_corot_to_pk2 (hc : c * c = 2) (h2 : (2:K) ≠ 0) (hU : M3.ofMandel c [u 0, u 1, u 2, u 3, u 4, u 5].det ≠ 0) :
+    M3.ofMandel c [u 0, u 1, u 2, u 3, u 4, u 5] * M3.ofMandel c (Gen.N3_corot_to_pk2_r c c3 fn s u) * M3.ofMandel c [u 0, u 1, u 2, u 3, u 4, u 5] = M3.ofMandel c [u 0, u 1, u 2, u 3, u 4, u 5].det • M3.ofMandel c [s 0, s 1, s 2, s 3, s 4, s 5] := by
+  have hc0 : c ≠ 0 := c_ne_zero hc h2
+  have hd : Gen.N3_corot_to_pk2_den0 c c3 fn s u ≠ 0 := by
+    have : Gen.N3_corot_to_pk2_den0 c c3 fn s u = M3.ofMandel c [u 0, u 1, u 2, u 3, u 4, u 5].det := by
+      c23_unfold; c23_field hc
+    rw [this]; exact hU
+  c23_rat hc with hd
+/-- `det U · σ̃ = U S U` -/
+theorem N3_pk2_to_corot (hc : c * c = 2) (h2 : (2:K) ≠ 0) (hU : M3.ofMandel c [u 0, u 1, u 2, u 3, u 4, u 5].det ≠ 0) :
+    M3.ofMandel c [u 0, u 1, u 2, u 3, u 4, u 5].det • M3.ofMandel c (Gen.N3_pk2_to_corot_r c c3 fn p u) = M3.ofMandel c [u 0, u 1, u 2, u 3, u 4, u 5] * M3.ofMandel c [p 0, p 1, p 2, p 3, p 4, p 5] * M3.ofMandel c [u 0, u 1, u 2, u 3, u 4, u 5] := by
+  have hc0 : c ≠ 0 := c_ne_zero hc h2
+  have hd : Gen.N3_pk2_to_corot_den0 c c3 fn p u ≠ 0 := by
+    have : Gen.N3_pk2_to_corot_den0 c c3 fn p u = M3.ofMandel c [u 0, u 1, u 2, u 3, u 4, u 5].det := by
+      c23_unfold; c23_field hc
+    rw [this]; exact hU
+  c23_rat hc with hd
+/-! ### the conversions are mutually inverse (`det F ≠ 0`, `det U ≠ 0`) -/
+/-- `σ ↦ P ↦ σ` -/
+theorem N3_pk1_roundtrip (hc : c * c = 2) (h2 : (2:K) ≠ 0) (hJ : F.det ≠ 0) :
+    M3.ofMandel c (Gen.N3_pk1_to_cauchy_r c c3 fn (Gen.N3_cauchy_to_pk1_rv c c3 fn s (tensv F)) (tensv F)) = M3.ofMandel c [s 0, s 1, s 2, s 3, s 4, s 5] := by
+  have B := N3_pk1_to_cauchy c c3 fn F (Gen.N3_cauchy_to_pk1_rv c c3 fn s (tensv F)) hc h2 hJ
+  have A := N3_cauchy_to_pk1 c c3 fn F s hc h2
+  have e : M3.ofTens [Gen.N3_cauchy_to_pk1_rv c c3 fn s (tensv F) 0, Gen.N3_cauchy_to_pk1_rv c c3 fn s (tensv F) 1, Gen.N3_cauchy_to_pk1_rv c c3 fn s (tensv F) 2, Gen.N3_cauchy_to_pk1_rv c c3 fn s (tensv F) 3, Gen.N3_cauchy_to_pk1_rv c c3 fn s (tensv F) 4, Gen.N3_cauchy_to_pk1_rv c c3 fn s (tensv F) 5, Gen.N3_cauchy_to_pk1_rv c c3 fn s (tensv F) 6, Gen.N3_cauchy_to_pk1_rv c c3 fn s (tensv F) 7, Gen.N3_cauchy_to_pk1_rv c c3 fn s (tensv F) 8] = M3.ofTens (Gen.N3_cauchy_to_pk1_r c c3 fn s (tensv F)) := rfl
+  rw [e, A, symLower_smul_ofMandel] at B
+  exact smul_cancel hJ B
+/-- `σ ↦ S ↦ σ` -/
+theorem N3_pk2_roundtrip (hc : c * c = 2) (h2 : (2:K) ≠ 0) (hJ : F.det ≠ 0) :
+    M3.ofMandel c (Gen.N3_pk2_to_cauchy_r c c3 fn (Gen.N3_cauchy_to_pk2_rv c c3 fn s (tensv F)) (tensv F)) = M3.ofMandel c [s 0, s 1, s 2, s 3, s 4, s 5] := by
+  have B := N3_pk2_to_cauchy c c3 fn F (Gen.N3_cauchy_to_pk2_rv c c3 fn s (tensv F)) hc h2 hJ
+  have A := N3_cauchy_to_pk2 c c3 fn F s hc h2 hJ
+  have e : M3.ofMandel c [Gen.N3_cauchy_to_pk2_rv c c3 fn s (tensv F) 0, Gen.N3_cauchy_to_pk2_rv c c3 fn s (tensv F) 1, Gen.N3_cauchy_to_pk2_rv c c3 fn s (tensv F) 2, Gen.N3_cauchy_to_pk2_rv c c3 fn s (tensv F) 3, Gen.N3_cauchy_to_pk2_rv c c3 fn s (tensv F) 4, Gen.N3_cauchy_to_pk2_rv c c3 fn s (tensv F) 5] = M3.ofMandel c (Gen.N3_cauchy_to_pk2_r c c3 fn s (tensv F)) := rfl
+  rw [e, A] at B
+  exact smul_cancel hJ B
+/-- `S ↦ σ ↦ S` -/
+theorem N3_pk2_roundtrip' (hc : c * c = 2) (h2 : (2:K) ≠ 0) (hJ : F.det ≠ 0) :
+    M3.ofMandel c (Gen.N3_cauchy_to_pk2_r c c3 fn (Gen.N3_pk2_to_cauchy_rv c c3 fn p (tensv F)) (tensv F)) = M3.ofMandel c [p 0, p 1, p 2, p 3, p 4, p 5] := by
+  have A := N3_cauchy_to_pk2 c c3 fn F (Gen.N3_pk2_to_cauchy_rv c c3 fn p (tensv F)) hc h2 hJ
+  have B := N3_pk2_to_cauchy c c3 fn F p hc h2 hJ
+  have e : M3.ofMandel c [Gen.N3_pk2_to_cauchy_rv c c3 fn p (tensv F) 0, Gen.N3_pk2_to_cauchy_rv c c3 fn p (tensv F) 1, Gen.N3_pk2_to_cauchy_rv c c3 fn p (tensv F) 2, Gen.N3_pk2_to_cauchy_rv c c3 fn p (tensv F) 3, Gen.N3_pk2_to_cauchy_rv c c3 fn p (tensv F) 4, Gen.N3_pk2_to_cauchy_rv c c3 fn p (tensv F) 5] = M3.ofMandel c (Gen.N3_pk2_to_cauchy_r c c3 fn p (tensv F)) := rfl
+  rw [e, B] at A
+  have hJt : F.transpose.det ≠ 0 := by rw [det_transpose]; exact hJ
+  exact mul_left_cancel_det hJ (mul_right_cancel_det hJt A)
+/-- `σ̃ ↦ S ↦ σ̃` -/
+theorem N3_corot_roundtrip (hc : c * c = 2) (h2 : (2:K) ≠ 0) (hU : M3.ofMandel c [u 0, u 1, u 2, u 3, u 4, u 5].det ≠ 0) :
+    M3.ofMandel c (Gen.N3_pk2_to_corot_r c c3 fn (Gen.N3_corot_to_pk2_rv c c3 fn s u) u) = M3.ofMandel c [s 0, s 1, s 2, s 3, s 4, s 5] := by
+  have B := N3_pk2_to_corot c c3 fn (Gen.N3_corot_to_pk2_rv c c3 fn s u) u hc h2 hU
+  have A := N3_corot_to_pk2 c c3 fn s u hc h2 hU
+  have e : M3.ofMandel c [Gen.N3_corot_to_pk2_rv c c3 fn s u 0, Gen.N3_corot_to_pk2_rv c c3 fn s u 1, Gen.N3_corot_to_pk2_rv c c3 fn s u 2, Gen.N3_corot_to_pk2_rv c c3 fn s u 3, Gen.N3_corot_to_pk2_rv c c3 fn s u 4, Gen.N3_corot_to_pk2_rv c c3 fn s u 5] = M3.ofMandel c (Gen.N3_corot_to_pk2_r c c3 fn s u) := rfl
+  rw [e, A] at B
+  exact smul_cancel hU B
+/-- `S ↦ σ̃ ↦ S` -/
+theorem N3_corot_roundtrip' (hc : c * c = 2) (h2 : (2:K) ≠ 0) (hU : M3.ofMandel c [u 0, u 1, u 2, u 3, u 4, u 5].det ≠ 0) :
+    M3.ofMandel c (Gen.N3_corot_to_pk2_r c c3 fn (Gen.N3_pk2_to_corot_rv c c3 fn p u) u) = M3.ofMandel c [p 0, p 1, p 2, p 3, p 4, p 5] := by
+  have A := N3_corot_to_pk2 c c3 fn (Gen.N3_pk2_to_corot_rv c c3 fn p u) u hc h2 hU
+  have B := N3_pk2_to_corot c c3 fn p u hc h2 hU
+  have e : M3.ofMandel c [Gen.N3_pk2_to_corot_rv c c3 fn p u 0, Gen.N3_pk2_to_corot_rv c c3 fn p u 1, Gen.N3_pk2_to_corot_rv c c3 fn p u 2, Gen.N3_pk2_to_corot_rv c c3 fn p u 3, Gen.N3_pk2_to_corot_rv c c3 fn p u 4, Gen.N3_pk2_to_corot_rv c c3 fn p u 5] = M3.ofMandel c (Gen.N3_pk2_to_corot_r c c3 fn p u) := rfl
+  rw [e, B] at A
+  exact mul_left_cancel_det hU (mul_right_cancel_det hU A)
 end N3
 
 /-! ## 2D -/
@@ -168,6 +229,70 @@ theorem N2_pk2_to_cauchy (hc : c * c = 2) (h2 : (2:K) ≠ 0) (hJ : (plane f0 f1 
   have hc0 : c ≠ 0 := c_ne_zero hc h2
   obtain ⟨h1, h2'⟩ := plane_det_ne hJ
   c23_rat hc with h1
+/-! ### corotational Cauchy stress `σ̃ = Rᵀ σ R` and right stretch `U` (stored `u`): `U S U = det U · σ̃` -/
+theorem N2_corot_to_pk2 (hc : c * c = 2) (h2 : (2:K) ≠ 0) (hU : M3.ofMandel c [u 0, u 1, u 2, u 3].det ≠ 0) :
+    M3.ofMandel c [u 0, u 1, u 2, u 3] * M3.ofMandel c (Gen.N2_corot_to_pk2_r c c3 fn s u) * M3.ofMandel c [u 0, u 1, u 2, u 3] = M3.ofMandel c [u 0, u 1, u 2, u 3].det • M3.ofMandel c [s 0, s 1, s 2, s 3] := by
+  have hc0 : c ≠ 0 := c_ne_zero hc h2
+  have hu2 : u 2 ≠ 0 := by
+    intro h; apply hU; c23_unfold; rw [h]; ring
+  have hd : Gen.N2_corot_to_pk2_den0 c c3 fn s u ≠ 0 := by
+    have : Gen.N2_corot_to_pk2_den0 c c3 fn s u = M3.ofMandel c [u 0, u 1, u 2, u 3].det := by
+      c23_unfold; c23_field hc
+    rw [this]; exact hU
+  c23_rat hc with hd
+/-- `det U · σ̃ = U S U` -/
+theorem N2_pk2_to_corot (hc : c * c = 2) (h2 : (2:K) ≠ 0) (hU : M3.ofMandel c [u 0, u 1, u 2, u 3].det ≠ 0) :
+    M3.ofMandel c [u 0, u 1, u 2, u 3].det • M3.ofMandel c (Gen.N2_pk2_to_corot_r c c3 fn p u) = M3.ofMandel c [u 0, u 1, u 2, u 3] * M3.ofMandel c [p 0, p 1, p 2, p 3] * M3.ofMandel c [u 0, u 1, u 2, u 3] := by
+  have hc0 : c ≠ 0 := c_ne_zero hc h2
+  have hu2 : u 2 ≠ 0 := by
+    intro h; apply hU; c23_unfold; rw [h]; ring
+  have hd : Gen.N2_pk2_to_corot_den0 c c3 fn p u ≠ 0 := by
+    have : Gen.N2_pk2_to_corot_den0 c c3 fn p u = M3.ofMandel c [u 0, u 1, u 2, u 3].det := by
+      c23_unfold; c23_field hc
+    rw [this]; exact hU
+  c23_rat hc with hd
+/-! ### the conversions are mutually inverse (`det F ≠ 0`, `det U ≠ 0`) -/
+/-- `σ ↦ P ↦ σ` -/
+theorem N2_pk1_roundtrip (hc : c * c = 2) (h2 : (2:K) ≠ 0) (hJ : (plane f0 f1 f2 f3 f4).det ≠ 0) :
+    M3.ofMandel c (Gen.N2_pk1_to_cauchy_r c c3 fn (Gen.N2_cauchy_to_pk1_rv c c3 fn s (tensv (plane f0 f1 f2 f3 f4))) (tensv (plane f0 f1 f2 f3 f4))) = M3.ofMandel c [s 0, s 1, s 2, s 3] := by
+  have B := N2_pk1_to_cauchy c c3 fn f0 f1 f2 f3 f4 (Gen.N2_cauchy_to_pk1_rv c c3 fn s (tensv (plane f0 f1 f2 f3 f4))) hc h2 hJ
+  have A := N2_cauchy_to_pk1 c c3 fn f0 f1 f2 f3 f4 s hc h2
+  have e : M3.ofTens [Gen.N2_cauchy_to_pk1_rv c c3 fn s (tensv (plane f0 f1 f2 f3 f4)) 0, Gen.N2_cauchy_to_pk1_rv c c3 fn s (tensv (plane f0 f1 f2 f3 f4)) 1, Gen.N2_cauchy_to_pk1_rv c c3 fn s (tensv (plane f0 f1 f2 f3 f4)) 2, Gen.N2_cauchy_to_pk1_rv c c3 fn s (tensv (plane f0 f1 f2 f3 f4)) 3, Gen.N2_cauchy_to_pk1_rv c c3 fn s (tensv (plane f0 f1 f2 f3 f4)) 4] = M3.ofTens (Gen.N2_cauchy_to_pk1_r c c3 fn s (tensv (plane f0 f1 f2 f3 f4))) := rfl
+  rw [e, A, symLower_smul_ofMandel] at B
+  exact smul_cancel hJ B
+/-- `σ ↦ S ↦ σ` -/
+theorem N2_pk2_roundtrip (hc : c * c = 2) (h2 : (2:K) ≠ 0) (hJ : (plane f0 f1 f2 f3 f4).det ≠ 0) :
+    M3.ofMandel c (Gen.N2_pk2_to_cauchy_r c c3 fn (Gen.N2_cauchy_to_pk2_rv c c3 fn s (tensv (plane f0 f1 f2 f3 f4))) (tensv (plane f0 f1 f2 f3 f4))) = M3.ofMandel c [s 0, s 1, s 2, s 3] := by
+  have B := N2_pk2_to_cauchy c c3 fn f0 f1 f2 f3 f4 (Gen.N2_cauchy_to_pk2_rv c c3 fn s (tensv (plane f0 f1 f2 f3 f4))) hc h2 hJ
+  have A := N2_cauchy_to_pk2 c c3 fn f0 f1 f2 f3 f4 s hc h2 hJ
+  have e : M3.ofMandel c [Gen.N2_cauchy_to_pk2_rv c c3 fn s (tensv (plane f0 f1 f2 f3 f4)) 0, Gen.N2_cauchy_to_pk2_rv c c3 fn s (tensv (plane f0 f1 f2 f3 f4)) 1, Gen.N2_cauchy_to_pk2_rv c c3 fn s (tensv (plane f0 f1 f2 f3 f4)) 2, Gen.N2_cauchy_to_pk2_rv c c3 fn s (tensv (plane f0 f1 f2 f3 f4)) 3] = M3.ofMandel c (Gen.N2_cauchy_to_pk2_r c c3 fn s (tensv (plane f0 f1 f2 f3 f4))) := rfl
+  rw [e, A] at B
+  exact smul_cancel hJ B
+/-- `S ↦ σ ↦ S` -/
+theorem N2_pk2_roundtrip' (hc : c * c = 2) (h2 : (2:K) ≠ 0) (hJ : (plane f0 f1 f2 f3 f4).det ≠ 0) :
+    M3.ofMandel c (Gen.N2_cauchy_to_pk2_r c c3 fn (Gen.N2_pk2_to_cauchy_rv c c3 fn p (tensv (plane f0 f1 f2 f3 f4))) (tensv (plane f0 f1 f2 f3 f4))) = M3.ofMandel c [p 0, p 1, p 2, p 3] := by
+  have A := N2_cauchy_to_pk2 c c3 fn f0 f1 f2 f3 f4 (Gen.N2_pk2_to_cauchy_rv c c3 fn p (tensv (plane f0 f1 f2 f3 f4))) hc h2 hJ
+  have B := N2_pk2_to_cauchy c c3 fn f0 f1 f2 f3 f4 p hc h2 hJ
+  have e : M3.ofMandel c [Gen.N2_pk2_to_cauchy_rv c c3 fn p (tensv (plane f0 f1 f2 f3 f4)) 0, Gen.N2_pk2_to_cauchy_rv c c3 fn p (tensv (plane f0 f1 f2 f3 f4)) 1, Gen.N2_pk2_to_cauchy_rv c c3 fn p (tensv (plane f0 f1 f2 f3 f4)) 2, Gen.N2_pk2_to_cauchy_rv c c3 fn p (tensv (plane f0 f1 f2 f3 f4)) 3] = M3.ofMandel c (Gen.N2_pk2_to_cauchy_r c c3 fn p (tensv (plane f0 f1 f2 f3 f4))) := rfl
+  rw [e, B] at A
+  have hJt : (plane f0 f1 f2 f3 f4).transpose.det ≠ 0 := by rw [det_transpose]; exact hJ
+  exact mul_left_cancel_det hJ (mul_right_cancel_det hJt A)
+/-- `σ̃ ↦ S ↦ σ̃` -/
+theorem N2_corot_roundtrip (hc : c * c = 2) (h2 : (2:K) ≠ 0) (hU : M3.ofMandel c [u 0, u 1, u 2, u 3].det ≠ 0) :
+    M3.ofMandel c (Gen.N2_pk2_to_corot_r c c3 fn (Gen.N2_corot_to_pk2_rv c c3 fn s u) u) = M3.ofMandel c [s 0, s 1, s 2, s 3] := by
+  have B := N2_pk2_to_corot c c3 fn (Gen.N2_corot_to_pk2_rv c c3 fn s u) u hc h2 hU
+  have A := N2_corot_to_pk2 c c3 fn s u hc h2 hU
+  have e : M3.ofMandel c [Gen.N2_corot_to_pk2_rv c c3 fn s u 0, Gen.N2_corot_to_pk2_rv c c3 fn s u 1, Gen.N2_corot_to_pk2_rv c c3 fn s u 2, Gen.N2_corot_to_pk2_rv c c3 fn s u 3] = M3.ofMandel c (Gen.N2_corot_to_pk2_r c c3 fn s u) := rfl
+  rw [e, A] at B
+  exact smul_cancel hU B
+/-- `S ↦ σ̃ ↦ S` -/
+theorem N2_corot_roundtrip' (hc : c * c = 2) (h2 : (2:K) ≠ 0) (hU : M3.ofMandel c [u 0, u 1, u 2, u 3].det ≠ 0) :
+    M3.ofMandel c (Gen.N2_corot_to_pk2_r c c3 fn (Gen.N2_pk2_to_corot_rv c c3 fn p u) u) = M3.ofMandel c [p 0, p 1, p 2, p 3] := by
+  have A := N2_corot_to_pk2 c c3 fn (Gen.N2_pk2_to_corot_rv c c3 fn p u) u hc h2 hU
+  have B := N2_pk2_to_corot c c3 fn p u hc h2 hU
+  have e : M3.ofMandel c [Gen.N2_pk2_to_corot_rv c c3 fn p u 0, Gen.N2_pk2_to_corot_rv c c3 fn p u 1, Gen.N2_pk2_to_corot_rv c c3 fn p u 2, Gen.N2_pk2_to_corot_rv c c3 fn p u 3] = M3.ofMandel c (Gen.N2_pk2_to_corot_r c c3 fn p u) := rfl
+  rw [e, B] at A
+  exact mul_left_cancel_det hU (mul_right_cancel_det hU A)
 end N2
 
 /-! ## 1D -/
@@ -227,6 +352,70 @@ theorem N1_pk2_to_cauchy (hc : c * c = 2) (h2 : (2:K) ≠ 0) (hJ : (dg f0 f1 f2)
   have hc0 : c ≠ 0 := c_ne_zero hc h2
   obtain ⟨h0, h1, h2'⟩ := dg_det_ne hJ
   c23_rat0 hc
+/-! ### corotational Cauchy stress `σ̃ = Rᵀ σ R` and right stretch `U` (stored `u`): `U S U = det U · σ̃` -/
+theorem N1_corot_to_pk2 (hc : c * c = 2) (h2 : (2:K) ≠ 0) (hU : M3.ofMandel c [u 0, u 1, u 2].det ≠ 0) :
+    M3.ofMandel c [u 0, u 1, u 2] * M3.ofMandel c (Gen.N1_corot_to_pk2_r c c3 fn s u) * M3.ofMandel c [u 0, u 1, u 2] = M3.ofMandel c [u 0, u 1, u 2].det • M3.ofMandel c [s 0, s 1, s 2] := by
+  have hc0 : c ≠ 0 := c_ne_zero hc h2
+  have hu0 : u 0 ≠ 0 := by
+    intro h; apply hU; c23_unfold; rw [h]; ring
+  have hu1 : u 1 ≠ 0 := by
+    intro h; apply hU; c23_unfold; rw [h]; ring
+  have hu2 : u 2 ≠ 0 := by
+    intro h; apply hU; c23_unfold; rw [h]; ring
+  c23_rat0 hc
+/-- `det U · σ̃ = U S U` -/
+theorem N1_pk2_to_corot (hc : c * c = 2) (h2 : (2:K) ≠ 0) (hU : M3.ofMandel c [u 0, u 1, u 2].det ≠ 0) :
+    M3.ofMandel c [u 0, u 1, u 2].det • M3.ofMandel c (Gen.N1_pk2_to_corot_r c c3 fn p u) = M3.ofMandel c [u 0, u 1, u 2] * M3.ofMandel c [p 0, p 1, p 2] * M3.ofMandel c [u 0, u 1, u 2] := by
+  have hc0 : c ≠ 0 := c_ne_zero hc h2
+  have hu0 : u 0 ≠ 0 := by
+    intro h; apply hU; c23_unfold; rw [h]; ring
+  have hu1 : u 1 ≠ 0 := by
+    intro h; apply hU; c23_unfold; rw [h]; ring
+  have hu2 : u 2 ≠ 0 := by
+    intro h; apply hU; c23_unfold; rw [h]; ring
+  c23_rat0 hc
+/-! ### the conversions are mutually inverse (`det F ≠ 0`, `det U ≠ 0`) -/
+/-- `σ ↦ P ↦ σ` -/
+theorem N1_pk1_roundtrip (hc : c * c = 2) (h2 : (2:K) ≠ 0) (hJ : (dg f0 f1 f2).det ≠ 0) :
+    M3.ofMandel c (Gen.N1_pk1_to_cauchy_r c c3 fn (Gen.N1_cauchy_to_pk1_rv c c3 fn s (tensv (dg f0 f1 f2))) (tensv (dg f0 f1 f2))) = M3.ofMandel c [s 0, s 1, s 2] := by
+  have B := N1_pk1_to_cauchy c c3 fn f0 f1 f2 (Gen.N1_cauchy_to_pk1_rv c c3 fn s (tensv (dg f0 f1 f2))) hc h2 hJ
+  have A := N1_cauchy_to_pk1 c c3 fn f0 f1 f2 s hc h2
+  have e : M3.ofTens [Gen.N1_cauchy_to_pk1_rv c c3 fn s (tensv (dg f0 f1 f2)) 0, Gen.N1_cauchy_to_pk1_rv c c3 fn s (tensv (dg f0 f1 f2)) 1, Gen.N1_cauchy_to_pk1_rv c c3 fn s (tensv (dg f0 f1 f2)) 2] = M3.ofTens (Gen.N1_cauchy_to_pk1_r c c3 fn s (tensv (dg f0 f1 f2))) := rfl
+  rw [e, A, symLower_smul_ofMandel] at B
+  exact smul_cancel hJ B
+/-- `σ ↦ S ↦ σ` -/
+theorem N1_pk2_roundtrip (hc : c * c = 2) (h2 : (2:K) ≠ 0) (hJ : (dg f0 f1 f2).det ≠ 0) :
+    M3.ofMandel c (Gen.N1_pk2_to_cauchy_r c c3 fn (Gen.N1_cauchy_to_pk2_rv c c3 fn s (tensv (dg f0 f1 f2))) (tensv (dg f0 f1 f2))) = M3.ofMandel c [s 0, s 1, s 2] := by
+  have B := N1_pk2_to_cauchy c c3 fn f0 f1 f2 (Gen.N1_cauchy_to_pk2_rv c c3 fn s (tensv (dg f0 f1 f2))) hc h2 hJ
+  have A := N1_cauchy_to_pk2 c c3 fn f0 f1 f2 s hc h2 hJ
+  have e : M3.ofMandel c [Gen.N1_cauchy_to_pk2_rv c c3 fn s (tensv (dg f0 f1 f2)) 0, Gen.N1_cauchy_to_pk2_rv c c3 fn s (tensv (dg f0 f1 f2)) 1, Gen.N1_cauchy_to_pk2_rv c c3 fn s (tensv (dg f0 f1 f2)) 2] = M3.ofMandel c (Gen.N1_cauchy_to_pk2_r c c3 fn s (tensv (dg f0 f1 f2))) := rfl
+  rw [e, A] at B
+  exact smul_cancel hJ B
+/-- `S ↦ σ ↦ S` -/
+theorem N1_pk2_roundtrip' (hc : c * c = 2) (h2 : (2:K) ≠ 0) (hJ : (dg f0 f1 f2).det ≠ 0) :
+    M3.ofMandel c (Gen.N1_cauchy_to_pk2_r c c3 fn (Gen.N1_pk2_to_cauchy_rv c c3 fn p (tensv (dg f0 f1 f2))) (tensv (dg f0 f1 f2))) = M3.ofMandel c [p 0, p 1, p 2] := by
+  have A := N1_cauchy_to_pk2 c c3 fn f0 f1 f2 (Gen.N1_pk2_to_cauchy_rv c c3 fn p (tensv (dg f0 f1 f2))) hc h2 hJ
+  have B := N1_pk2_to_cauchy c c3 fn f0 f1 f2 p hc h2 hJ
+  have e : M3.ofMandel c [Gen.N1_pk2_to_cauchy_rv c c3 fn p (tensv (dg f0 f1 f2)) 0, Gen.N1_pk2_to_cauchy_rv c c3 fn p (tensv (dg f0 f1 f2)) 1, Gen.N1_pk2_to_cauchy_rv c c3 fn p (tensv (dg f0 f1 f2)) 2] = M3.ofMandel c (Gen.N1_pk2_to_cauchy_r c c3 fn p (tensv (dg f0 f1 f2))) := rfl
+  rw [e, B] at A
+  have hJt : (dg f0 f1 f2).transpose.det ≠ 0 := by rw [det_transpose]; exact hJ
+  exact mul_left_cancel_det hJ (mul_right_cancel_det hJt A)
+/-- `σ̃ ↦ S ↦ σ̃` -/
+theorem N1_corot_roundtrip (hc : c * c = 2) (h2 : (2:K) ≠ 0) (hU : M3.ofMandel c [u 0, u 1, u 2].det ≠ 0) :
+    M3.ofMandel c (Gen.N1_pk2_to_corot_r c c3 fn (Gen.N1_corot_to_pk2_rv c c3 fn s u) u) = M3.ofMandel c [s 0, s 1, s 2] := by
+  have B := N1_pk2_to_corot c c3 fn (Gen.N1_corot_to_pk2_rv c c3 fn s u) u hc h2 hU
+  have A := N1_corot_to_pk2 c c3 fn s u hc h2 hU
+  have e : M3.ofMandel c [Gen.N1_corot_to_pk2_rv c c3 fn s u 0, Gen.N1_corot_to_pk2_rv c c3 fn s u 1, Gen.N1_corot_to_pk2_rv c c3 fn s u 2] = M3.ofMandel c (Gen.N1_corot_to_pk2_r c c3 fn s u) := rfl
+  rw [e, A] at B
+  exact smul_cancel hU B
+/-- `S ↦ σ̃ ↦ S` -/
+theorem N1_corot_roundtrip' (hc : c * c = 2) (h2 : (2:K) ≠ 0) (hU : M3.ofMandel c [u 0, u 1, u 2].det ≠ 0) :
+    M3.ofMandel c (Gen.N1_corot_to_pk2_r c c3 fn (Gen.N1_pk2_to_corot_rv c c3 fn p u) u) = M3.ofMandel c [p 0, p 1, p 2] := by
+  have A := N1_corot_to_pk2 c c3 fn (Gen.N1_pk2_to_corot_rv c c3 fn p u) u hc h2 hU
+  have B := N1_pk2_to_corot c c3 fn p u hc h2 hU
+  have e : M3.ofMandel c [Gen.N1_pk2_to_corot_rv c c3 fn p u 0, Gen.N1_pk2_to_corot_rv c c3 fn p u 1, Gen.N1_pk2_to_corot_rv c c3 fn p u 2] = M3.ofMandel c (Gen.N1_pk2_to_corot_r c c3 fn p u) := rfl
+  rw [e, B] at A
+  exact mul_left_cancel_det hU (mul_right_cancel_det hU A)
 end N1
 
 end TfelVerif.C23.PropsStress
